@@ -155,7 +155,10 @@ func (e *vmEnvironment) newVMConfig() *vm.Config {
 	conf.ValidateAccountCapabilitiesGetHandler = newValidateAccountCapabilitiesGetHandler(&e.Interface)
 	conf.ValidateAccountCapabilitiesPublishHandler = newValidateAccountCapabilitiesPublishHandler(&e.Interface)
 	conf.ElaborationResolver = e.resolveElaboration
-	conf.StackDepthLimit = defaultStackDepthLimit
+	conf.StackDepthLimit = e.config.StackDepthLimit
+	if conf.StackDepthLimit == 0 {
+		conf.StackDepthLimit = defaultStackDepthLimit
+	}
 
 	if interpreter.TracingEnabled {
 		conf.Tracer = interpreter.CallbackTracer(newOnRecordTraceHandler(&e.Interface))
